@@ -92,3 +92,10 @@ func VerifNegotiated(cl *ClientDnsConnection) (qt, up, down int, edns bool, upmt
 	}
 	return qt, up, down, s.UseEdns0, int(s.Upstream.FragmentSize), int(s.Downstream.FragmentSize)
 }
+
+// VerifUserState: sequence numbers, queue length and fragment size of a server-side session.
+func VerifUserState(c net.Conn) (inNext, outNext uint16, outLen int, frag uint32) {
+	u := c.(*userConnection)
+	on, ol, _ := u.out.VerifState()
+	return u.in.NextSeqNo, on, ol, u.Serializer.Downstream.FragmentSize
+}
